@@ -264,13 +264,36 @@ type World struct {
 	EnvEvents []EnvEvent
 	RunEvents []*evpb.Ev_RunEvent
 	RunEventTS []time.Time
+	// ownership history (see Poll): task id -> environment it was seen locked by; task ids the core saw ACTIVE
+	EverOwned  map[string]string
+	EverActive map[string]bool
 }
 
 // NewWorld starts a core (life 1) on top of master m. Call inside a controlled execution.
 func NewWorld(m *Master) *World {
-	w := &World{M: m}
+	w := &World{M: m, EverOwned: map[string]string{}, EverActive: map[string]bool{}}
+	m.Observe = w.Poll
+	vrt.OnIdle(w.Poll)
 	w.StartCore()
 	return w
+}
+
+// Poll records the ownership history: which environment each roster task was seen locked by, and
+// whether the core ever saw it ACTIVE. Called at every framework call reaching the master and by
+// the RPC helpers before and after every request.
+func (w *World) Poll() {
+	if w.Core == nil || w.Core.Taskman == nil || w.EverOwned == nil {
+		return
+	}
+	for _, t := range w.Core.Taskman.RosterForVerif() {
+		id := t.GetTaskId()
+		if o := t.OwnerForVerif(); o != "" {
+			w.EverOwned[id] = o
+		}
+		if t.ActiveForVerif() {
+			w.EverActive[id] = true
+		}
+	}
 }
 
 // StartCore starts a (new) core life.
@@ -293,6 +316,8 @@ func (w *World) StartCore() {
 
 // Create calls the NewEnvironment RPC.
 func (w *World) Create(workflow string, vars map[string]string) (id string, state string, err error) {
+	w.Poll()
+	defer w.Poll()
 	rep, err := w.Core.Rpc.NewEnvironment(context.Background(), &pb.NewEnvironmentRequest{WorkflowTemplate: workflow, Vars: vars})
 	if rep != nil && rep.Environment != nil {
 		id, state = rep.Environment.Id, rep.Environment.State
@@ -302,6 +327,8 @@ func (w *World) Create(workflow string, vars map[string]string) (id string, stat
 
 // Control calls the ControlEnvironment RPC.
 func (w *World) Control(id string, op pb.ControlEnvironmentRequest_Optype) (state string, err error) {
+	w.Poll()
+	defer w.Poll()
 	rep, err := w.Core.Rpc.ControlEnvironment(context.Background(), &pb.ControlEnvironmentRequest{Id: id, Type: op})
 	if rep != nil {
 		state = rep.State
@@ -311,6 +338,8 @@ func (w *World) Control(id string, op pb.ControlEnvironmentRequest_Optype) (stat
 
 // Destroy calls the DestroyEnvironment RPC.
 func (w *World) Destroy(id string, force, allowRunning, keepTasks bool) error {
+	w.Poll()
+	defer w.Poll()
 	_, err := w.Core.Rpc.DestroyEnvironment(context.Background(), &pb.DestroyEnvironmentRequest{Id: id, Force: force, AllowInRunningState: allowRunning, KeepTasks: keepTasks})
 	return err
 }
